@@ -1,7 +1,9 @@
 package server
 
 import (
+	"context"
 	"crypto/tls"
+	"errors"
 	"net/http"
 	"net/url"
 	"strings"
@@ -18,6 +20,7 @@ type vEndingHandler struct {
 	err     error
 	respHdr string
 	early   bool
+	cancel  context.CancelFunc // the client's context: cancelled before a "client went away" proxy error is handled
 }
 
 func (h *vEndingHandler) ServeHTTP(w http.ResponseWriter, r *http.Request) {
@@ -31,6 +34,9 @@ func (h *vEndingHandler) ServeHTTP(w http.ResponseWriter, r *http.Request) {
 		w.WriteHeader(h.status)
 		w.Write(h.body)
 	case 1:
+		if h.cancel != nil && errors.Is(h.err, context.Canceled) {
+			h.cancel() // the client has gone away: its context is cancelled when the error is handled
+		}
 		h.t.handleProxyError(w, r, h.err)
 	case 2:
 		if hj, ok := w.(http.Hijacker); ok {
@@ -47,7 +53,9 @@ func HarnessAccessLog() {
 	router := NewRouter("/state")
 	tlsOn, redirect := vBool("tls"), vBool("redirect")
 	opts := ServiceOptions{Hosts: []string{"example.com"}, TLSEnabled: tlsOn, TLSRedirect: redirect, TLSCertificatePath: "c", TLSPrivateKeyPath: "k"}
-	topts := TargetOptions{HealthCheckConfig: HealthCheckConfig{Path: "/up"}, LogRequestHeaders: []string{"x-req-a", "X-Missing"}, LogResponseHeaders: []string{"x-custom"}}
+	// (with and without response buffering in front of the proxy handler)
+	topts := TargetOptions{HealthCheckConfig: HealthCheckConfig{Path: "/up"}, LogRequestHeaders: []string{"x-req-a", "X-Missing"}, LogResponseHeaders: []string{"x-custom"},
+		BufferResponses: vBool("buffer_responses"), MaxMemoryBufferSize: 1 << 20}
 	svc, err := NewService("svc", opts, topts)
 	vAssert(err == nil, "log: service builds")
 	t, err := NewTarget("backend:3000", topts)
@@ -62,7 +70,7 @@ func HarnessAccessLog() {
 	} else if eh.mode != 2 {
 		eh.body = vBytes("body", vChoose("bodylen", 3))
 	}
-	t.proxyHandler = eh
+	t.proxyHandler = vRebuildTargetChain(t, eh)
 	lb := &LoadBalancer{healthy: TargetList{}, all: TargetList{t}}
 	t.stateConsumer = lb
 	lb.updateHealthyTargets()
@@ -101,6 +109,9 @@ func HarnessAccessLog() {
 	if vBool("over_tls") {
 		req.TLS = &tls.ConnectionState{}
 	}
+	ctx, cancel := context.WithCancel(context.Background())
+	eh.cancel = cancel
+	req = req.WithContext(ctx)
 	client := vNewRecorder()
 	var w http.ResponseWriter = client
 	if eh.mode == 2 {
@@ -128,6 +139,9 @@ func HarnessAccessLog() {
 		wantStatus = 200 // aborted before any header: net/http would have sent nothing; the record keeps the default
 	}
 	vAssert(get("status").num == int64(wantStatus), "log: status is the one the client got (101 for an upgraded connection)")
+	if eh.mode == 1 && len(vTargetSeen) > 0 {
+		vAssert(client.wroteHeader && client.status >= 400, "log: a proxy error status is written to the client (and logged), with or without response buffering")
+	}
 	vAssert(get("resp_content_length").num == int64(len(client.body)), "log: response byte count is what was written to the client")
 	vAssert(get("method").str == method && get("host").str == host && get("path").str == path && get("query").str == query, "log: method, host, path and query are the request's")
 	vAssert(get("request_id").str == req.Header.Get("X-Request-ID") && get("request_id").str != "", "log: request id is the one used for the request")
